@@ -166,3 +166,12 @@ MODELS["numpy.divide"] = _binary("divide")
 def zscore_result(eng, st, args, kwargs, line):
     oid = eng.new_oid(st, {k: kwargs[k] for k in ("data", "loc", "scale")})
     return val(st, VObj(oid, "ZScoreResult", "sigpyproc/core/stats.py"))
+
+
+@model("class:sigpyproc/core/stats.py::ChannelStats")
+def channel_stats_new(eng, st, args, kwargs, line):
+    """ChannelStats(nchans, nsamps): the accumulator object; ghost `pushed` counts the samples pushed so far
+    (its moments array is owned by the C10 contracts)."""
+    nchans, nsamps = args[0], args[1]
+    oid = eng.new_oid(st, {"_nchans": nchans, "_nsamps": nsamps, "pushed": VInt(0)})
+    return val(st, VObj(oid, "ChannelStats", "sigpyproc/core/stats.py"))
